@@ -10,8 +10,12 @@
     grammar_facts tables_agree operators_parenthesised parse_gen_needs_support
     int_attribute_rejected dict_unpack_rejected type_params_dropped_witness
     parseS_genS genS_injective global_rejected handler_name_rejected
+    stmt_rewrites_exactly_globals stmt_rewritten_eq_freeGlobals stmt_rewriting_invertible
+    stmt_bound_names_are_pythons class_body_rebinding_witness stmt_scopes_example
 -/
 import Genshi.Lemmas.PyParseS5
+import Genshi.Lemmas.PyStmtSpec
+import Genshi.Lemmas.PyStmtUnxf
 namespace Genshi.Props.C13
 open Genshi.Py Genshi.Gen
 
@@ -286,5 +290,91 @@ example : ∃ lines, genModule exModule = some lines ∧ pyParseS lines = some e
 
 example : pyParseS (genBody 0 exModule) = some exModule := rfl
 example : (genBody 0 exModule).length = 26 := rfl
+
+/-! ### statement mode of `TemplateASTTransformer` (code blocks, `Suite`)
+
+Model `xformS` (`Model/PyStmtX.lean`): the `self.locals` stack threaded through the statements.
+Specification `specModule` / `freeGlobals` (`Model/PyScope.lean`): Python's scoping rule, with the
+complete set of bound names of every scope fixed up front, no state. -/
+
+/-- **Exactly the loads of global names are rewritten.**  For every module body in the domain
+    `okModule` — any nesting of `def` / `class` / lambda / comprehension scopes, every binding
+    statement (assignment, augmented assignment, `for`, `with … as`, `del`, `import`, `def`, `class`),
+    parameters of every kind with defaults / annotations / decorators / base classes in the
+    enclosing scope — the transformer's stateful scope tracking produces exactly the tree in which
+    the `Name` loads that Python's rule resolves to a global (not bound in the scope, not bound in an
+    enclosing *function* scope) are replaced by `_lookup_name(__data__, 'x')`, and no other.
+    Outside the domain: loads of `NotImplemented` / `Ellipsis` (known finding C03-constant-names) and
+    `super` / `__class__` (left plain on purpose), a class body reading a name it binds itself
+    (known finding C13-class-body-rebinding, see the witness below), `global`, `except … as`
+    and `from m import *` (rejected / not compiled). -/
+theorem stmt_rewrites_exactly_globals (body : List PyStmt) (h : okModule body = true) :
+    xformS body = specModule body :=
+  xformS_spec body h
+
+/-- the same, read back per scope: the names each scope of the rewritten program looks up in the
+    template data are the names `freeGlobals` (Python's rule; compared with CPython's `symtable` by
+    the harness) says it references as globals -/
+theorem stmt_rewritten_eq_freeGlobals (body : List PyStmt) (h : okModule body = true) :
+    scopeTree (xformS body) = freeGlobals body := by
+  rw [freeGlobals, xformS_spec body h]
+
+/-- **Nothing is lost.**  Undoing the rewriting on the transformed program gives back the program:
+    every statement, clause, target, parameter, default, annotation, decorator and expression is
+    still there, in place, for *every* program that does not itself call the (reserved) lookup
+    helpers — no scoping hypothesis is needed. -/
+theorem stmt_rewriting_invertible (body : List PyStmt) (h : noLookupB body = true) :
+    unxfB (xformS body) = body :=
+  unxfB_xsB body _ h
+
+/-- the walk `_bound_names` (function-wide locals) finds exactly the names Python says a function
+    body binds, on accepted programs -/
+theorem stmt_bound_names_are_pythons (env : SEnv) (body : List PyStmt) (h : okB env body = true) :
+    bnB body = bindsB body :=
+  bnB_eq body env h
+
+/-- a module with an import of a dotted name, a decorated function (default in the enclosing scope,
+    `for` / `with … as` targets, a comprehension reading a function local and the imported name), and a
+    class whose method returns a lambda: it is in the domain, it is rewritten non-trivially, and
+    the per-scope global references are as Python resolves them -/
+def exScopes : List PyStmt := [
+  .import_ [(cs!"os.path", none)],
+  .functionDef cs!"f" [] [.param cs!"a" none (some (.name cs!"d"))] none [] none
+    [ .for_ (.name cs!"i") (.name cs!"xs") [.assign [.name cs!"t"] (.binOp (.name cs!"i") cs!"Add" (.name cs!"g"))] [],
+      .with_ [(.call (.name cs!"open") [.name cs!"a"] [], some (.name cs!"w"))] [.expr (.name cs!"w")],
+      .import_ [(cs!"os.path", none)],
+      .return_ (some (.listComp (.binOp (.name cs!"k") cs!"Add" (.name cs!"t")) [.comp (.name cs!"k") (.name cs!"os") [] false])) ]
+    [.name cs!"deco"] none false,
+  .classDef cs!"C" [.name cs!"Base"] []
+    [ .assign [.name cs!"y"] (.const ⟨.int, cs!"1"⟩),
+      .functionDef cs!"m" [] [.param cs!"self" none none] none [] none
+        [.return_ (some (.lambda [] [.param cs!"q" none none] none [] none (.binOp (.name cs!"q") cs!"Add" (.name cs!"y"))))]
+        [] none false ]
+    [] false ]
+
+theorem stmt_scopes_example :
+    okModule exScopes = true ∧ noLookupB exScopes = true ∧
+    freeGlobals exScopes =
+      .node cs!"module" cs!"top" [cs!"d", cs!"deco", cs!"Base"]
+        [ .node cs!"function" cs!"f" [cs!"xs", cs!"g", cs!"open"] [.node cs!"function" cs!"listcomp" [] []],
+          .node cs!"class" cs!"C" [] [.node cs!"function" cs!"m" [] [.node cs!"function" cs!"lambda" [cs!"y"] []]] ] :=
+  ⟨by decide +kernel, by decide +kernel, rfl⟩
+
+example : xformS exScopes = specModule exScopes := stmt_rewrites_exactly_globals _ stmt_scopes_example.1
+example : unxfB (xformS exScopes) = exScopes := stmt_rewriting_invertible _ stmt_scopes_example.2.1
+
+/-- **Known finding C13-class-body-rebinding (witness).**  `class C: y = x; x = 1`: when `y = x` is
+    visited the class scope does not hold `x` yet, so the transformer rewrites that load into a
+    data lookup, while Python classifies `x` as a name of the class body (looked up in the class
+    namespace, then in the globals, at run time): the program is outside `okModule`, and there the
+    two disagree. -/
+def exClassDyn : List PyStmt :=
+  [.classDef cs!"C" [] [] [.assign [.name cs!"y"] (.name cs!"x"), .assign [.name cs!"x"] (.const ⟨.int, cs!"1"⟩)] [] false]
+
+theorem class_body_rebinding_witness :
+    okModule exClassDyn = false ∧
+    scopeTree (xformS exClassDyn) = .node cs!"module" cs!"top" [] [.node cs!"class" cs!"C" [cs!"x"] []] ∧
+    freeGlobals exClassDyn = .node cs!"module" cs!"top" [] [.node cs!"class" cs!"C" [] []] :=
+  ⟨by decide +kernel, rfl, rfl⟩
 
 end Genshi.Props.C13
